@@ -70,8 +70,8 @@ def check_int_ops(chk, prog, sim):
     return n
 
 
-def check_conversions(chk, prog, sim):
-    key = "conv:shapes"
+def check_conversions(chk, prog, sim, tag=""):
+    key = "conv:shapes" + tag
     chk.obligation(key, "conversion shapes and unit gates")
     ok = True
     qty = Q.quantity_ty(prog)
@@ -221,6 +221,16 @@ def run(chk):
     sim = S.Sim(prog)
     n = check_int_ops(chk, prog, sim)
     check_conversions(chk, prog, sim)
+    # the conversions must also succeed on seconds when dimension checking is compiled out (K4): a gate written with the
+    # assume-false family is invisible in K1 and rejects everything there
+    p4 = load_config("K4")
+    chk.configs.append("K4")
+    before = len(chk.violations)
+    s4 = S.Sim(p4)
+    check_conversions(chk, p4, s4, "@K4")
+    for v in chk.violations[before:]:
+        v["key"] += "@K4"
+        v["what"] = "[dimension checking compiled out] " + v["what"]
     nm = 0
     for imp, tr, fn in Q.ops_impls(prog):
         sname = imp["self"]["name"]
